@@ -9,6 +9,7 @@ import population
 
 LOOSE_KEY = "loose-action-scheduling"
 ENDFOREACH_KEY = "foreach-actions-at-end-inside-wait"
+SPIN_KEY = "spin-through-outofspace-redirect"
 
 
 def work(job):
@@ -17,11 +18,18 @@ def work(job):
     args = ["-O1"] + prog["args"]
     r = refine.refine(prog["src"], args, timeout=25)
     out = {"name": prog["name"], "status": r["status"], "detail": r.get("detail", ""), "word": r.get("word"),
-           "nstates": r.get("nstates", 0), "loose": None, "O3": None, "endforeach": None}
+           "nstates": r.get("nstates", 0), "loose": None, "O3": None, "endforeach": None, "spins": r.get("machine_spins", False)}
     if r["status"] == "mismatch":
         r2 = refine.refine(prog["src"], args, timeout=40, strict_done="0L")
         out["loose"] = r2["status"]
-        if r2["status"] == "mismatch" and r.get("word") and r["word"][-1] == 256:
+        if r2["status"] == "mismatch":
+            # assignments / deletes after a skipped construct up to the end of its block are lost
+            for mode in ("0S", "0LS"):
+                r6 = refine.refine(prog["src"], args, timeout=40, strict_done=mode)
+                if r6["status"] in ("closed", "closed-relaxed"):
+                    out["loose"] = r6["status"]
+                    break
+        if out["loose"] == "mismatch" and r.get("word") and r["word"][-1] == 256:
             r5 = refine.refine(prog["src"], args, timeout=40, strict_done="0E")
             out["endforeach"] = r5["status"]
     elif r["status"] in ("closed", "closed-relaxed") and prog.get("also_O3"):
@@ -29,11 +37,32 @@ def work(job):
         out["O3"] = r3["status"]
         if r3["status"] == "mismatch":
             r4 = refine.refine(prog["src"], ["-O3"] + prog["args"], timeout=40, strict_done="0L")
-            if r4["status"] not in ("closed", "closed-relaxed"):
+            for mode in ("0S", "0LS"):
+                if r4["status"] in ("closed", "closed-relaxed"):
+                    break
+                r4 = refine.refine(prog["src"], ["-O3"] + prog["args"], timeout=40, strict_done=mode)
+            if r4["status"] in ("closed", "closed-relaxed"):
                 out["status"] = "mismatch"
                 out["detail"] = "(-O3) " + r3["detail"]
                 out["word"] = r3.get("word")
                 out["loose"] = r4["status"]
+                out["spins"] = r3.get("machine_spins", False)
+            else:
+                out["spins"] = r3.get("machine_spins", False)
+                out["status"] = "mismatch"
+                out["detail"] = "(-O3) " + r3["detail"]
+                out["word"] = r3.get("word")
+                out["loose"] = r4["status"]
+    if prog.get("c_stage") and out["status"] in ("closed", "closed-relaxed"):
+        # end to end: the real generated C against the runtime model of the same machine
+        import rtdiff, random
+        wd = os.path.join(common.VERIF, "scratch", f"cstage-{prop.lower()}", str(os.getpid()))
+        cargs = args + (["-findirect-start-ptr"] if "-fyield-support" not in args else [])
+        try:
+            st, diffs = rtdiff.walk_diffs(prog, cargs, wd, random.Random(prog["name"]))
+            out["c_stage"] = {"status": st, "diffs": diffs}
+        except Exception as e:
+            out["c_stage"] = {"status": "error:" + repr(e)[:200], "diffs": []}
     return out
 
 
@@ -55,8 +84,13 @@ def replay_on_binary(prog, word, wd):
 def run(pid, theorems, module, progs, rule, known_corpus=()):
     ck = Check(pid, "translation_validation")
     ck.lean_obligations(module, theorems)
+    # every k-th program also goes through the compiled C (binary vs runtime model of its machine)
+    k = max(1, len(progs) // (60 if common.tier() == "quick" else 400))
+    for i, p in enumerate(progs):
+        p.setdefault("c_stage", i % k == 0)
     with mp.Pool(min(14, os.cpu_count() or 4)) as pool:
         results = pool.map(work, [(p, pid) for p in progs], chunksize=2)
+    shutil.rmtree(os.path.join(common.VERIF, "scratch", f"cstage-{pid.lower()}"), ignore_errors=True)
     byname = {p["name"]: p for p in progs}
     st = {"programs": len(progs), "accepted": 0, "closed": 0, "closed_relaxed": 0, "rejected": 0, "unsupported": 0,
           "inconclusive": 0, "mismatch": 0, "unsupported_reasons": {}}
@@ -89,6 +123,10 @@ def run(pid, theorems, module, progs, rule, known_corpus=()):
                 if prog.get("known_key"):
                     key = prog["known_key"]
                     what = f"{r['name']}: {prog.get('known_what', 'listed finding')}; witness word {r['word']}"
+                elif r.get("spins"):
+                    key = SPIN_KEY
+                    what = (f"{r['name']}: the machine's dispatch does not return (an out-of-space redirect re-enters the same append: "
+                            f"the finding recorded under C04); witness word {r['word']}")
                 elif r.get("endforeach") in ("closed", "closed-relaxed"):
                     key = ENDFOREACH_KEY
                     what = (f"{r['name']}: end-of-input met inside a wait runs the per-byte actions of the enclosing "
@@ -112,6 +150,18 @@ def run(pid, theorems, module, progs, rule, known_corpus=()):
             else:
                 st["inconclusive"] += 1
                 ck.broken_obligation(f"certificate inconclusive ({s}) for {r['name']}", {"program": prog["src"], "detail": r["detail"][:300]})
+            cs = r.get("c_stage")
+            if cs:
+                if cs["status"] == "ok":
+                    st["c_stage_programs"] = st.get("c_stage_programs", 0) + 1
+                    for d in cs["diffs"]:
+                        ck.report(f"{population.src_hash(prog['src'])}/binary-vs-model",
+                                  f"{r['name']}: the compiled C and the runtime model of the same machine disagree ({d['kind']})",
+                                  dict(d, program=prog["src"]))
+                        break
+                elif cs["status"].startswith("build:"):
+                    ck.report(f"{population.src_hash(prog['src'])}/build", f"{r['name']}: generated C does not build",
+                              {"program": prog["src"], "args": prog["args"], "detail": cs["status"][:500]})
             if len(ck.samples) < 4 and s in ("closed", "closed-relaxed"):
                 ck.samples.append({"program": r["name"], "result": r["detail"][:100]})
     finally:
